@@ -72,15 +72,16 @@ def const_int(v):
 
 
 class Effect:
-    __slots__ = ("kind", "name", "args", "bb", "line", "call")
+    __slots__ = ("kind", "name", "args", "bb", "line", "call", "ndec")
 
-    def __init__(self, kind, name, args, bb, line, call=None):
+    def __init__(self, kind, name, args, bb, line, call=None, ndec=0):
         self.kind = kind
         self.name = name
         self.args = args
         self.bb = bb
         self.line = line
         self.call = call
+        self.ndec = ndec   # number of decisions taken before this effect (orders effects against decisions)
 
     def __repr__(self):
         return "%s:%s(%s)" % (self.kind, short(self.name), ",".join(vkey(a) for a in self.args))
@@ -208,7 +209,7 @@ class Explorer:
                 return
             name = vkey(self.read_place_sym(st, place))
             if self.record_stores:
-                st.effects.append(Effect("store", name, [val], bb, line))
+                st.effects.append(Effect("store", name, [val], bb, line, None, len(st.decisions)))
             return
         # partial write into a local aggregate
         basekey = place_key((loc, []))
@@ -247,11 +248,48 @@ class Explorer:
         if op[0] == "k":
             c = op[2]
             if isinstance(c, dict) and "promoted" in c:
-                return ("atom", "promoted%d" % c["promoted"])
+                return self.eval_promoted(c["promoted"])
             if c is None:
                 return ("atom", "const:" + op[1])
             return ("k", c)
         return self.read_place(st, op[1])
+
+    def eval_promoted(self, i):
+        """value of a promoted constant: interpret the straight-line promoted body"""
+        cache = getattr(self, "_prom", None)
+        if cache is None:
+            cache = self._prom = {}
+        if i in cache:
+            return cache[i]
+        val = ("atom", "promoted%d" % i)
+        try:
+            blocks = self.fn.promoted[i]
+            st = _State()
+            bb = 0
+            steps = 0
+            while steps < 8:
+                steps += 1
+                for s in blocks[bb]["s"]:
+                    if s[0] == "=":
+                        v = self.rvalue(st, s[2])
+                        self.write_place(st, s[1], v, bb, s[3])
+                t = blocks[bb]["t"]
+                if t[0] == "goto":
+                    bb = t[1]
+                    continue
+                break
+            v = st.env.get("_0")
+            if v is not None:
+                if v[0] == "ref":
+                    inner = self.read_place(st, (v[1][0], [list(e) if isinstance(e, tuple) else e for e in v[1][1]]))
+                    if not (inner[0] == "atom" and inner[1].startswith("_")):
+                        val = ("refv", inner)
+                elif v[0] != "atom":
+                    val = v
+        except Exception:
+            pass
+        cache[i] = val
+        return val
 
     def rvalue(self, st, rv):
         k = rv[0]
@@ -506,7 +544,7 @@ class Explorer:
                         self.write_place(st, (a[1][0], [list(e) if isinstance(e, tuple) else e for e in a[1][1]]),
                                          ("atom", "mut:%s@%s#%d" % (place_key(a[1]), short(c.name), c.ordinal)), bb, c.line)
                 if self.is_effect(c):
-                    st.effects.append(Effect("call", c.name, argd, bb, c.line, c))
+                    st.effects.append(Effect("call", c.name, argd, bb, c.line, c, len(st.decisions)))
                 self.write_place(st, c.dest, val, bb, c.line)
                 if c.target is None:
                     self.finish(st, "diverge", bb)
@@ -629,8 +667,8 @@ def check_table(paths, atom_of, spec, outcome_of, domains):
     deviations = []
     cells = 0
     for path in paths:
-        got = outcome_of(path)
-        if got is None:
+        got0 = outcome_of(path)
+        if got0 is None:
             continue
         known = {}
         unknown = []
@@ -654,6 +692,7 @@ def check_table(paths, atom_of, spec, outcome_of, domains):
             covered.add(row)
             cells += 1
             exp = spec(assign)
+            got = got0(assign) if callable(got0) else got0
             if exp != got:
                 deviations.append((assign, exp, got, path, unknown))
     uncovered = []
